@@ -22,7 +22,7 @@ from guardsem import TabInterp
 ORD = "core::cmp::Ordering"
 DISCR = {"Less": 255, "Equal": 0, "Greater": 1}
 VARIANT = {"Less": 0, "Equal": 1, "Greater": 2}
-CMP_RE = re.compile(r"core::cmp::impls::<impl core::cmp::Ord for (u8|u16|u32|u64|usize|char)>::cmp")
+CMP_RE = re.compile(r"core::cmp::impls::<impl core::cmp::Ord for (u8|u16|u32|u64|usize|char|bool)>::cmp")
 STRUCT_CMP_RE = re.compile(r"<core::(result::Result<T, E>|option::Option<T>) as core::cmp::Ord>::cmp|core::tuple::<impl core::cmp::Ord for \(.*\)>::cmp")
 WIDEN_RE = re.compile(r"core::convert::num::<impl core::convert::From<(u8|u16|u32|char)> for (u16|u32|u64|usize|u128|i16|i32|i64|isize)>::from")
 
